@@ -550,7 +550,8 @@ computation of `adlBody`'s parameters on the response path (hypothesis `B2ParOK`
 tokens (abstracted: the schedule picks any datagram ever sent, any number of times, in any order). -/
 
 /-- For EVERY schedule — any loss, duplication, delay, reordering of request and response datagrams, repeated GETs,
-time-outs of the server's lg_xmit and of the client's lg_crcv at any moment, any number of lg_xmit incarnations (each
+time-outs of the server's lg_xmit and of the client's lg_crcv at any moment, an lg_crcv set up at send time (NON
+request) or only by the first response (CON), any number of lg_xmit incarnations (each
 with a fresh ETag, possibly with a different block size) — without ANY hypothesis on the datagrams: whatever the
 client's response handler is given is the server's body (single-body mode: exactly, with its exact length) or an
 exact slice of it at the announced offset (per-block mode), and a block response is never passed on as a plain one. -/
